@@ -9,6 +9,10 @@
 #include <string.h>
 
 #define PATH "/vmem/c11.hdf"
+/* target objects are addressed by a small index: 1 -> (1000,1), 2 -> (1000,2), 3 -> (1001,1): the third has the reference
+   number of the first and another tag */
+#define TTAG(k) ((uint16)((k) == 3 ? 1001 : 1000))
+#define TREF(k) ((uint16)((k) == 3 ? 1 : (k)))
 #define MAXANN 6
 #define MAXT 320
 
@@ -139,7 +143,7 @@ observe(const char *where)
         }
     }
     /* per target object */
-    const uint16 targets[3][2] = {{1000, 1}, {1000, 2}, {1000, 3}};
+    const uint16 targets[3][2] = {{1000, 1}, {1000, 2}, {1001, 1}};
     for (int t = 0; t < 2; t++)
         for (int g = 0; g < 3; g++) {
             int want = 0;
@@ -185,7 +189,7 @@ apply(const mc_op *op)
     switch (op->code) {
         case O_CREATE: {
             int    t = op->a[0];
-            uint16 tt = 1000, tr = (uint16)op->a[1];
+            uint16 tt = TTAG(op->a[1]), tr = TREF(op->a[1]);
             int32  id = t < 2 ? ANcreate(an, tt, tr, TY[t]) : ANcreatef(an, TY[t]);
             if (M.readonly) {
                 if (id != FAIL && ANwriteann(id, "x", 1) != FAIL)
@@ -279,11 +283,11 @@ apply(const mc_op *op)
                 M.a[i].id = FAIL;
             ann_t *m = &M.a[M.n];
             memset(m, 0, sizeof *m);
-            m->type = op->a[0], m->ttag = 1000, m->tref = (uint16)op->a[1];
+            m->type = op->a[0], m->ttag = TTAG(op->a[1]), m->tref = TREF(op->a[1]);
             m->id   = FAIL;
             m->len  = make_text(1, 0, M.nops, m->txt);
             m->txt[m->len] = 0;
-            int rc = op->a[0] == 0 ? DFANputlabel(PATH, 1000, (uint16)op->a[1], (char *)m->txt) : DFANputdesc(PATH, 1000, (uint16)op->a[1], (char *)m->txt, m->len);
+            int rc = op->a[0] == 0 ? DFANputlabel(PATH, TTAG(op->a[1]), TREF(op->a[1]), (char *)m->txt) : DFANputdesc(PATH, TTAG(op->a[1]), TREF(op->a[1]), (char *)m->txt, m->len);
             if (rc == FAIL) {
                 mc_violation("dfan:put-failed", "DFANput%s failed", op->a[0] == 0 ? "label" : "desc");
                 return 1;
@@ -293,7 +297,7 @@ apply(const mc_op *op)
             /* DFAN replaces an existing annotation of that object instead of adding a second one */
             int replaced = -1;
             for (int i = 0; i < M.n; i++)
-                if (M.a[i].type == m->type && M.a[i].ttag == 1000 && M.a[i].tref == m->tref && M.a[i].aref == m->aref)
+                if (M.a[i].type == m->type && M.a[i].ttag == m->ttag && M.a[i].tref == m->tref && M.a[i].aref == m->aref)
                     replaced = i;
             if (replaced >= 0) {
                 M.a[replaced].len = m->len;
@@ -303,12 +307,12 @@ apply(const mc_op *op)
                 M.n++;
             /* and must read the same through DFAN */
             char  back[64];
-            int32 l = op->a[0] == 0 ? DFANgetlablen(PATH, 1000, (uint16)op->a[1]) : DFANgetdesclen(PATH, 1000, (uint16)op->a[1]);
+            int32 l = op->a[0] == 0 ? DFANgetlablen(PATH, TTAG(op->a[1]), TREF(op->a[1])) : DFANgetdesclen(PATH, TTAG(op->a[1]), TREF(op->a[1]));
             memset(back, 0, sizeof back);
             if (op->a[0] == 0)
-                DFANgetlabel(PATH, 1000, (uint16)op->a[1], back, 63);
+                DFANgetlabel(PATH, TTAG(op->a[1]), TREF(op->a[1]), back, 63);
             else
-                DFANgetdesc(PATH, 1000, (uint16)op->a[1], back, 63);
+                DFANgetdesc(PATH, TTAG(op->a[1]), TREF(op->a[1]), back, 63);
             (void)l;
             fid = Hopen(PATH, DFACC_RDWR, 0);
             an  = fid == FAIL ? FAIL : ANstart(fid);
@@ -343,6 +347,7 @@ enum_ops(mc_op *out, int max)
         ADD(O_CREATE, 0, 1, 1); /* label of (100,1) */
         ADD(O_CREATE, 1, 1, 2); /* description of (100,1) with embedded NUL */
         ADD(O_CREATE, 0, 2, 0); /* label of (100,2): same ref number pattern, other object */
+        ADD(O_CREATE, 0, 3, 1); /* label of the object with the first one's ref and another tag */
         ADD(O_CREATE, 2, 0, 1); /* file label */
         ADD(O_CREATE, 3, 0, 3); /* long file description */
         if (thorough) {
@@ -367,6 +372,13 @@ enum_ops(mc_op *out, int max)
     if (!M.readonly && M.n < MAXANN - 1) {
         ADD(O_DFAN, 0, 2, 0);
         ADD(O_DFAN, 1, 2, 0);
+        /* two objects with the same reference number and different tags */
+        ADD(O_DFAN, 0, 1, 0);
+        ADD(O_DFAN, 0, 3, 0);
+        if (thorough) {
+            ADD(O_DFAN, 1, 1, 0);
+            ADD(O_DFAN, 1, 3, 0);
+        }
     }
     return n;
 }
@@ -391,7 +403,7 @@ key(void)
 {
     uint64_t h = mc_hash_i(MC_H0, M.n * 2 + M.readonly);
     for (int i = 0; i < M.n; i++) {
-        h = mc_hash_i(h, M.a[i].type * 100000 + M.a[i].tref * 1000 + M.a[i].len);
+        h = mc_hash_i(h, M.a[i].type * 100000 + (M.a[i].ttag - 1000) * 50000 + M.a[i].tref * 1000 + M.a[i].len);
         h = mc_hash(h, M.a[i].txt, (size_t)M.a[i].len);
         h = mc_hash_i(h, M.a[i].atag * 70000 + M.a[i].aref);
         h = mc_hash_i(h, M.a[i].id != FAIL);
@@ -426,6 +438,7 @@ setup(int ndds)
     uint8 d[4] = {1, 2, 3, 4};
     Hputelement(fid, 1000, 1, d, 4);
     Hputelement(fid, 1000, 2, d, 4);
+    Hputelement(fid, 1001, 1, d, 4);
     an = ANstart(fid);
     return an == FAIL ? -1 : observe("start state");
 }
